@@ -12,7 +12,7 @@ abbrev Line := Nat × Nat
 
 structure DSt where
   -- size-rotating handler
-  fs     : FS Line := { live := none, bak := fun _ => none }
+  fs     : FS Line := {}
   rh     : RH := {}
   spec   : Option (Spec Line) := none   -- none: (re)based on the directory at the next rinit
   specK  : Nat := 0
@@ -54,7 +54,7 @@ def nameLe (a b : String) : Bool :=
 
 def lsLine (st : DSt) : String :=
   let sz := (match st.fs.live with | some c => [showFile "L" c] | none => []) ++
-    (List.range scanMax).filterMap (fun i => (st.fs.bak i).map (showFile (toString i)))
+    (List.range (max scanMax st.fs.bak.length)).filterMap (fun i => (bget st.fs.bak i).map (showFile (toString i)))
   let names := (st.tfs.created.map showName).mergeSort nameLe
   let tm := names.map (fun s =>
     showFile s ((st.tfs.recs.filter (fun r => showName r.name == s)).map (·.line)))
@@ -78,7 +78,7 @@ def stepLine (st : DSt) : List String → DSt × String
       let st := { st with nextId := st.nextId + ls.length, spec := none }
       if which = "L" then ({ st with fs := { st.fs with live := some lines } }, "ok")
       else match which.toNat? with
-        | some i => ({ st with fs := { st.fs with bak := bakSet st.fs.bak i (some lines) } }, "ok")
+        | some i => ({ st with fs := { st.fs with bak := bset st.fs.bak i (some lines) } }, "ok")
         | none => (st, "bad-op")
   | "rinit" :: mb :: bc :: _ =>
     if st.rh.isOpen then (st, "bad-op") else
@@ -110,7 +110,7 @@ def stepLine (st : DSt) : List String → DSt × String
   | ["ls"] => (st, lsLine st)
   | ["view"] =>
     let k := eff st.rh.backupCount
-    let m := viewLine k (((List.range k).reverse.map (fun i => cont (st.fs.bak (i + 1)))) ++
+    let m := viewLine k (((List.range k).reverse.map (fun i => cont (bget st.fs.bak (i + 1)))) ++
                          [cont st.fs.live])
     match st.spec with
     | some sp =>
@@ -128,7 +128,7 @@ def stepLine (st : DSt) : List String → DSt × String
     match c.toInt? with
     | some c => ({ st with clock := c }, "ok")
     | none => (st, "bad-op")
-  | ["tinit", u, m, loc] =>
+  | "tinit" :: u :: m :: loc :: _ =>
     if st.rh.isOpen || st.th.cur.isSome then (st, "bad-op") else
     match unitOf u, m.toNat?, loc.toNat? with
     | some u, some m, some loc =>
